@@ -290,7 +290,30 @@ def run(ctx: Ctx):
     ctx.fn(msl.fi)
     padding_invariance(ctx, "C04.c", msl, msl.cell("current_length"))
     guarded_callees(ctx)
+    ffsp_tables_per_reset(ctx)
     positive_control(ctx)
+
+
+def ffsp_tables_per_reset(ctx: Ctx):
+    """C04.d FFSP keeps its index tables on the env object; rows are mapped to machine permutations by `idx // bs`.  Every
+    `_reset` must (re)bind `bs` to the batch it is resetting -- unconditionally: a `set_bs` that only runs the first time leaves
+    the row mapping of an earlier, smaller batch in force, and rows beyond it read another permutation."""
+    import ast
+    env = EnvA(ctx.repo, T.ALL_ENVS["FFSPEnv"], "FFSPEnv")
+    fi = env.resolve("_reset")
+    ctx.fn(fi)
+    calls = []
+    for i, st in enumerate(fi.node.body):
+        for n in ast.walk(st):
+            if isinstance(n, ast.Call) and isinstance(n.func, ast.Attribute) and n.func.attr == "set_bs":
+                calls.append((st, n))
+    top_level = [c for st, c in calls if isinstance(st, ast.Expr) and st.value is c]
+    from_batch = [c for c in top_level if c.args and "batch_size" in ast.unparse(c.args[0])]
+    ok = len(from_batch) >= 1
+    ctx.ob("C04.d", "FFSPEnv._reset:tables-bound-to-this-batch", ok, fi.loc,
+           "tables.set_bs(batch_size[0]) runs unconditionally in every _reset" if ok else
+           f"set_bs is {'conditional' if calls else 'missing'} in _reset: the row -> machine-table mapping `idx // bs` keeps the batch size of an earlier reset",
+           construct="FFSPEnv._reset:tables-set_bs")
 
 
 def guarded_callees(ctx: Ctx):
